@@ -284,16 +284,19 @@ func (c *RetryClient) SetClient(ctx context.Context, cli *BaseClient) {
 	}
 	c.chConnSwitch = make(chan struct{})
 	verifEvent("SetClient")
+	startTask := c.chTask == nil
+	if startTask {
+		c.chTask = make(chan struct{}, 1)
+	}
 	c.mu.Unlock()
 	c.muStats.Lock()
 	c.stats.CountSetClient++
 	c.muStats.Unlock()
 
-	if c.chTask != nil {
+	if !startTask {
 		return
 	}
 
-	c.chTask = make(chan struct{}, 1)
 	go func() {
 		connected := false
 		var chConnSwitchConnected chan struct{}
